@@ -384,8 +384,8 @@ def standard_main(prop, pid, a, seed, t0, extra_results=None):
             for r in extra_results:
                 merge(r)
         if errors:
-            for e in errors[:3]:
-                print(e, file=sys.stderr)
+            for e in errors[:2]:
+                print(e[:3000], file=sys.stderr)
             print(f"HARNESS-ERROR property={pid} ({len(errors)} shard errors)")
             return 2
 
